@@ -69,7 +69,17 @@ func sanTokens(bs *BookSpec, gi int, decorate *PRNG) []string {
 	ok := true
 	for _, t := range toks {
 		if strings.HasPrefix(t, "\x00") {
-			out = append(out, t[1:])
+			if m, isPseudo := p.ParsePseudo(t[1:]); ok && isPseudo && !p.IsLegal(t[1:]) {
+				// an illegal move that looks like a move: written the way the
+				// legal moves are written
+				out = append(out, strings.TrimRight(p.San(m), "+#"))
+			} else if k := p.KingSq(0); ok && p.WhiteTo && k == 4 && (t[1:] == "e1g1" || t[1:] == "e1c1") {
+				out = append(out, map[string]string{"e1g1": "O-O", "e1c1": "O-O-O"}[t[1:]])
+			} else if k := p.KingSq(1); ok && !p.WhiteTo && k == 60 && (t[1:] == "e8g8" || t[1:] == "e8c8") {
+				out = append(out, map[string]string{"e8g8": "O-O", "e8c8": "O-O-O"}[t[1:]])
+			} else {
+				out = append(out, t[1:])
+			}
 			ok = false // everything after the first bad token is beyond the legal prefix
 			continue
 		}
